@@ -6,6 +6,8 @@ A *spec* is a small JSON-able description of a circuit:
 
   spec   = {"nin": N, "dins": [widths], "leaves": [{"name", "ready": k|None}],
             "connects": [{"name", "w", "rw"}], "items": [bodydef], "simul": [[nameA, nameB]],
+            "aliases": [{"name", "target"}]   (Method().provide(target); names usable in calls and in "simul"),
+            "conflicts": [[nameA, nameB, "U"|"L"|"R"]]   (nameA.add_conflict(nameB, priority)),
             "tag": str}
   bodydef= {"k":"trans","name","ready":k|None,"block":[stmt]}
          | {"k":"method","name","ready":k|None,"nx":0|1,"block":[stmt]}
@@ -53,7 +55,7 @@ from transactron import Method, Transaction, TModule, def_method
 from transactron.core.body import Body
 from transactron.core.manager import TransactionManager, MethodMap
 from transactron.core import schedulers as _schedulers
-from transactron.core.keys import TransactionsKey, DefinedMethodsKey
+from transactron.core.keys import TransactionsKey, DefinedMethodsKey, ProvidedMethodsKey
 from transactron.core.transaction_base import Priority
 from transactron.lib.simultaneous import condition
 from transactron.lib.connectors import Connect
@@ -202,6 +204,8 @@ class SimulTop(Elaboratable):
             self.connects[cn["name"]] = c
             self.methods[cn["name"] + ".write"] = c.write
             self.methods[cn["name"] + ".read"] = c.read
+        for al in spec.get("aliases", []):
+            self.methods[al["name"]] = Method(name=al["name"])
         self.objs.update(self.methods)
 
     def inp(self, k):
@@ -313,8 +317,13 @@ class SimulTop(Elaboratable):
             m.submodules[name] = c
         for it in self.spec["items"]:
             getattr(self, "s_" + it["k"])(m, it)
+        for al in self.spec.get("aliases", []):
+            self.methods[al["name"]].provide(self.methods[al["target"]])
         for a, b in self.spec.get("simul", []):
             self.objs[a].simultaneous(self.objs[b])
+        prio = {"U": Priority.UNDEFINED, "L": Priority.LEFT, "R": Priority.RIGHT}
+        for a, b, p in self.spec.get("conflicts", []):
+            self.objs[a].add_conflict(self.objs[b], prio[p])
         return m
 
 
@@ -435,12 +444,18 @@ def _extract_pre(b: Built):
     b.site_tuples = [r.call_tuple for r in top.sites]
     b.n_user_sites = len(b.site_tuples)
     site_of = {id(t): i for i, t in enumerate(b.site_tuples)}
+    # declarations made on methods defined by provide() are moved onto the body they alias (manager.py:464-473)
+    provided = list(b.dm.dependencies.get(ProvidedMethodsKey(), []))
     fb = []
     for body, obj, is_t in allo:
-        rels = list(body.relations) + list(obj.relations)
-        sims = list(body.simultaneous_list) + list(obj.simultaneous_list)
-        inds = list(body.independent_list) + list(obj.independent_list)
+        objs = [obj] + [p for p in provided if p._body is body and p is not obj]
+        rels = list(body.relations) + [r for o in objs for r in o.relations]
+        sims = list(body.simultaneous_list) + [x for o in objs for x in o.simultaneous_list]
+        inds = list(body.independent_list) + [x for o in objs for x in o.independent_list]
         fb.append(_flat_body(b, body, is_t, modmap, site_of, rels, sims, inds))
+    for al in top.spec.get("aliases", []):
+        if al["target"] in b.id_of:
+            b.id_of[al["name"]] = b.id_of[al["target"]]
     b.pre = {"bodies": fb, "trans": [b.body_id[id(o._body)] for o in tobjs], "meths": [b.body_id[id(o._body)] for o in mobjs]}
 
 
@@ -757,6 +772,8 @@ class _Gen:
         self.connects: list[dict] = []
         self.items: list[dict] = []
         self.simul: list[list] = []
+        self.aliases: list[dict] = []
+        self.conflicts: list[list] = []
         self.ntrans = 0
         self.nmeth = 0
 
@@ -827,7 +844,7 @@ class _Gen:
 
     def spec(self, tag: str) -> dict:
         return {"nin": self.nin, "dins": self.dins, "leaves": self.leaves, "connects": self.connects, "items": self.items,
-                "simul": self.simul, "tag": tag}
+                "simul": self.simul, "aliases": self.aliases, "conflicts": self.conflicts, "tag": tag}
 
 
 DEFAULT_P = {
@@ -906,7 +923,7 @@ def gen_c13(rng: random.Random, kind: str, P: Optional[dict] = None) -> dict:
     P = {**DEFAULT_P, **(P or {})}
     g = _Gen(rng, P)
     if kind == "free":
-        kind = rng.choice(["connect", "connect", "connect2", "tt", "mm", "tm", "nested", "half", "guarded"])
+        kind = rng.choice(["connect", "connect", "connect2", "tt", "mm", "tm", "nested", "half", "guarded", "alias", "big"])
     if kind == "nested":
         # what condition() builds, written by hand: a transaction nested in method M and declared simultaneous
         # with M (one or two nesting levels, with and without callees); M is reached through a call chain of 1-3
@@ -945,7 +962,64 @@ def gen_c13(rng: random.Random, kind: str, P: Optional[dict] = None) -> dict:
         w = c["w"] if side == "write" else c["rw"]
         return {"k": "call", "m": f"{cn}.{side}", "en": None, "arg": (g.din(w) if w > 0 else None)}
 
-    if kind == "half":
+    if kind == "alias":
+        # simultaneous() declared on methods that get their definition through provide() (both sides / one side)
+        defs, names = [], []
+        for side in range(2):
+            mn = g.mname()
+            g.items.append({"k": "method", "name": mn, "ready": g.maybe_inp(0.6), "nx": 0, "block": g.calls(0, 1, 0.2)})
+            defs.append(mn)
+        both = rng.random() < 0.6
+        for side in range(2):
+            if both or side == 0:
+                an = f"A{len(g.aliases)}"
+                g.aliases.append({"name": an, "target": defs[side]})
+                names.append(an)
+            else:
+                names.append(defs[side])
+        for side in range(2):
+            for _ in range(rng.choice([1, 1, 2])):
+                via = names[side] if rng.random() < 0.6 else defs[side]
+                caller([{"k": "call", "m": via, "en": None, "arg": None}], 0, 1)
+        g.simul.append(names if rng.random() < 0.5 else names[::-1])
+    elif kind == "big":
+        # simultaneity components of 4-5 transactions: 3-4 Connects in series, or a star around one transaction;
+        # no callee is shared between the members
+        ncn = rng.choice([3, 3, 4])
+        cns = [connect() for _ in range(ncn)]
+        ends: list = [[] for _ in range(ncn + 1)]
+        if rng.random() < 0.5:  # series t0 -cn0- t1 -cn1- t2 ...
+            for i, cn in enumerate(cns):
+                a, c = ("write", "read") if rng.random() < 0.5 else ("read", "write")
+                ends[i].append(ccall(cn, a))
+                ends[i + 1].append(ccall(cn, c))
+        else:  # star: member 0 is linked to every other member
+            for i, cn in enumerate(cns):
+                a, c = ("write", "read") if rng.random() < 0.5 else ("read", "write")
+                ends[0].append(ccall(cn, a))
+                ends[i + 1].append(ccall(cn, c))
+        order = list(range(ncn + 1))
+        rng.shuffle(order)
+        for i in order:
+            caller(ends[i], 0, 1)
+    elif kind == "conflict":
+        # must be rejected: two simultaneous bodies with an add_conflict between them (both would be run by one
+        # merged transaction)
+        p = rng.choice(["U", "L", "R"])
+        if rng.random() < 0.5:
+            a = caller([], 0, 1)
+            c = caller([], 0, 1)
+        else:
+            names = []
+            for side in range(2):
+                mn = g.mname()
+                g.items.append({"k": "method", "name": mn, "ready": g.maybe_inp(0.6), "nx": 0, "block": g.calls(0, 1, 0.2)})
+                caller([{"k": "call", "m": mn, "en": None, "arg": None}], 0, 1)
+                names.append(mn)
+            a, c = names
+        g.simul.append([a, c] if rng.random() < 0.5 else [c, a])
+        g.conflicts.append([a, c, p] if rng.random() < 0.5 else [c, a, p])
+    elif kind == "half":
         # one end of a simultaneous method pair has no caller at all: the callers of the other end can never run
         if rng.random() < 0.6:
             cn = connect()
